@@ -722,6 +722,27 @@ class Executor:
                 return T.ty_eq(ta.t, tb.t)
         raise Unsupported('== between %s and %s' % (a.kind, b.kind))
 
+    def flat_of(self, lst, inner_type=None):
+        """the concatenation of the types of a list of types of symbolic length, as a type: flat(n) with flat(0) = () and
+        flat(k + 1) = flat(k) ++ lst[k]; one function per list (memoised on its segments), recursion instances on request"""
+        key = tuple((s_[0], id(s_[1]), str(s_[2]) if len(s_) > 2 else '', str(s_[3]) if len(s_) > 3 else '')
+                    for s_ in lst.segs)
+        reg = self.__dict__.setdefault('_flats', {})
+        if key not in reg:
+            fn = z3.Function(T.fresh_name('flat'), T.IntS, T.TyS)
+            get = inner_type or (lambda i: self.list_at(lst, i))
+            reg[key] = (fn, lst, get)
+            self.assume(fn(T.I(0)) == T.EMPTY)
+        fn, _, get = reg[key]
+        v = VTy(fn(lst.length()))
+        v.flat = reg[key]
+        return v
+
+    def flat_step(self, flat, k):
+        """the recursion instance flat(k + 1) == flat(k) ++ types[k]   (0 <= k < n to be known by the caller)"""
+        fn, lst, get = flat
+        self.assume(fn(k + 1) == T.ty_concat(fn(k), get(k).t))
+
     def _whole_type(self, lst):
         """the type whose full list of objects `lst` is (tuple(ty._objects) / ty.objects), if it is one"""
         if lst.is_literal():
@@ -729,12 +750,21 @@ class Executor:
             if all(isinstance(x, VOb) for x in items):
                 return VTy(T.ty_concat(*[z3.Unit(x.t) for x in items]) if items else T.EMPTY)
             return None
-        if len(lst.segs) == 1 and lst.segs[0][0] == 'sub':
-            _, base, lo, hi = lst.segs[0]
+        parts = []
+        for s_ in lst.segs:
+            if s_[0] == 'lit':
+                if not all(isinstance(x, VOb) for x in s_[1]):
+                    return None
+                parts.extend(z3.Unit(x.t) for x in s_[1])
+                continue
+            _, base, lo, hi = s_
             org = getattr(base, 'origin', None)
-            if org is not None and org[0] == 'ty' and T.int_val(lo) == 0 and T.int_val(hi - base.length) == 0:
+            if org is None or org[0] != 'ty' or T.int_val(lo) != 0 or T.int_val(hi - base.length) != 0:
+                return None
+            if len(lst.segs) == 1:
                 return org[1]
-        return None
+            parts.append(org[1].t)
+        return VTy(T.ty_concat(*parts)) if parts else VTy(T.EMPTY)
 
     def to_real(self, v):
         if isinstance(v, VReal):
@@ -1345,6 +1375,14 @@ class Interp:
                     else:
                         segs.append(('lit', [r]))
                 return VList(segs)
+            if not g.ifs and gi + 1 == len(gens) and isinstance(e.elt, ast.Name) and isinstance(g.target, ast.Name) \
+                    and e.elt.id == g.target.id:
+                return it          # [x for x in xs] is a copy of xs
+            if not g.ifs and gi + 2 == len(gens) and gi == 0:
+                # [.. for t in types for x in t.objects] with a symbolic number of types: the flattening of the types
+                # the inner clause ranges over (semantics of nested comprehensions, T2): flat(0) = (), flat(k + 1) =
+                # flat(k) ++ inner(types[k]); recursion instances are taken on request (ex.flat_step)
+                return self.flatten_comp(it, body)
             if g.ifs or gi + 1 < len(gens):
                 raise Unsupported('filter / nested clause over a symbolic list')
             # exceptions raised by the body at an arbitrary element
@@ -1355,6 +1393,24 @@ class Interp:
             ex.side(probe)
             return ex.list_map(it, body, 'comp')
         return rec(0, env)
+
+    def flatten_comp(self, outer, body):
+        ex = self.ex
+        probe_k = T.fresh('fk', T.IntS)
+        whole = []
+
+        def probe():
+            ex.assume(z3.And(0 <= probe_k, probe_k < outer.length()))
+            r = body(ex.list_at(outer, probe_k))
+            w = ex._whole_type(r) if isinstance(r, VList) else None
+            whole.append(w is not None)
+        ex.side(probe)
+        if not whole or not whole[0]:
+            raise Unsupported('nested comprehension over a symbolic list whose inner clause is not the objects of a type')
+
+        def inner_type(i):
+            return ex._whole_type(body(ex.list_at(outer, i)))
+        return self.world.as_sequence(self, ex.flat_of(outer, inner_type))
 
     # -------------------------------------------------------- operators
     def binop(self, op, a, b):
